@@ -16,9 +16,9 @@ use std::collections::{BTreeMap, BTreeSet, HashMap};
 pub const META: PropMeta = PropMeta {
     id: "C02",
     level: "exploration",
-    rule: "cases = (registry after ensure_unique_type_paths, settings with a root name that is not a path segment): simulator programs (all forms: unit/tuple/named structs and enums with and without unused parameters, empty enums with parameters, type aliases hiding a Box, recursion through Box/Vec/maps), associated-type families after de-duplication, Polkadot and sub-registries. Oracles on the emitted tokens: syn parse as a file; module-tree reader (one root module, `use super::root` everywhere, pub items, unique names per module in the type namespace, unique variants); name resolution + arity check of every root-rooted path in every field type and in resolve_type_path(id) of every id; every bare identifier must be a declared generic of its item; every declared generic must be used by a field or a PhantomData marker; inline-cycle detection on closed instantiations (direct fields, Option, Result, tuples, arrays, Range, Compact are inline; Box, Vec and the alloc collections, PhantomData and substituted types are not). Quick tier additionally compiles one batch of generated modules with rustc + parity-scale-codec derives; thorough compiles many. non-trivial = generation succeeded with >= 1 item; distinct by hash of registry+settings.",
+    rule: "cases = (registry after ensure_unique_type_paths, settings with a root name that is not a path segment): simulator programs (all forms: unit/tuple/named structs and enums with and without unused parameters, empty enums with parameters, type aliases hiding a Box, recursion through Box/Vec/maps), associated-type families after de-duplication, Polkadot and sub-registries; every second settings value adds a substitution rule that spells out the source's generics, also on sources with skipped type parameters. Oracles on the emitted tokens: syn parse as a file; module-tree reader (one root module, `use super::root` everywhere, pub items, unique names per module in the type namespace, unique variants); name resolution + arity check of every root-rooted path in every field type and in resolve_type_path(id) of every id; every bare identifier must be a declared generic of its item; every declared generic must be used by a field or a PhantomData marker; inline-cycle detection on closed instantiations (direct fields, Option, Result, tuples, arrays, Range, Compact are inline; Box, Vec and the alloc collections, PhantomData and substituted types are not). Quick tier additionally compiles one batch of generated modules with rustc + parity-scale-codec derives; thorough compiles many. non-trivial = generation succeeded with >= 1 item; distinct by hash of registry+settings.",
     assumptions: &["substituted / unknown absolute paths are opaque leaves", "rustc is used as a runtime environment for the artifact, not as a prover"],
-    required_counters: &["paths_resolved", "generics_checked", "cycle_roots_examined", "modules_parsed", "phantom_markers_seen", "rustc_cases_compiled"],
+    required_counters: &["paths_resolved", "generics_checked", "cycle_roots_examined", "modules_parsed", "phantom_markers_seen", "rustc_cases_compiled", "rules_with_declared_generics_on_skipped_param_sources"],
     floor: (300, 5000),
     shards: (16, 16),
 };
